@@ -15,18 +15,19 @@ EXTENDS Naturals, Integers, Sequences, FiniteSets, TLC, Json
 CONSTANTS PathSet, ColourIdx, KSet, ModeSet, BodyAttrSet, ShapeSet, FontSet,
           HAutoSet,        \* BOOLEAN: the column header has no text of its own (labels come from the column names)
           ReEncSet,        \* BOOLEAN: encode, replace the colour-bearing components, encode again
+          LongSet,         \* BOOLEAN: every section has 34 rows on pages of three rows (the colour pattern recycles down the table)
           UseColorSet,     \* RTFPage(use_color=...): "default" | "true" | "false"
           SetOnAllPaths    \* deviation flag, as in ColorCtx
 VARIABLES cfg, d, phase, ctx, uses, k, out
 vars == <<cfg, d, phase, ctx, uses, k, out>>
 Comps == <<"title", "subline", "header", "footnote", "source", "pghdr", "pgftr">>
-Cfg0 == [path |-> "single", pal |-> <<>>, kk |-> 1, modes |-> <<>>, battr |-> "text", shape |-> "scalar", font |-> 1, fcomp |-> 1, hauto |-> FALSE, usecolor |-> "default", reenc |-> FALSE]
+Cfg0 == [path |-> "single", pal |-> <<>>, kk |-> 1, modes |-> <<>>, battr |-> "text", shape |-> "scalar", font |-> 1, fcomp |-> 1, hauto |-> FALSE, usecolor |-> "default", reenc |-> FALSE, long |-> FALSE]
 NSec(c) == CASE c.path = "multi2" -> 2 [] c.path = "multi3" -> 3 [] c.path = "figure" -> 0 [] OTHER -> 1
 Dense(S, x) == IF x \in S THEN Cardinality({y \in S : y <= x}) ELSE 0
 Range(s) == {s[j] : j \in 1..Len(s)}
 
 Init == cfg = Cfg0 /\ d = 1 /\ phase = "pick" /\ ctx = <<FALSE, {}>> /\ uses = <<>> /\ k = 1 /\ out = <<>>
-Pick == /\ phase = "pick" /\ d <= 11
+Pick == /\ phase = "pick" /\ d <= 12
         /\ CASE d = 1 -> \E v \in PathSet : cfg' = [cfg EXCEPT !.path = v] /\ d' = 2
              [] d = 2 -> \E v \in KSet : cfg' = [cfg EXCEPT !.kk = v] /\ d' = 3
              [] d = 3 -> IF Len(cfg.pal) >= cfg.kk THEN cfg' = cfg /\ d' = 4
@@ -42,6 +43,8 @@ Pick == /\ phase = "pick" /\ d <= 11
              \* reenc: the document object was encoded before with OTHER colours on the same components, which were then
              \* replaced; the encode under test must resolve against the colours the document has now
              [] d = 11 -> \E v \in ReEncSet : cfg' = [cfg EXCEPT !.reenc = v] /\ d' = 12
+             \* long: many pages (a renderer that hands pages to helpers must resolve colours on every one of them)
+             [] d = 12 -> \E v \in (IF cfg.path = "figure" THEN {FALSE} ELSE LongSet) : cfg' = [cfg EXCEPT !.long = v] /\ d' = 13
         /\ UNCHANGED <<phase, ctx, uses, k, out>>
 
 \* ---- the colour every element asks for (role, colour as master index) ----
@@ -73,7 +76,7 @@ Collected(c) == CompUses(c) \o BodyUses(c)
 Palette(c) == {Collected(c)[j][3] : j \in 1..Len(Collected(c))} \ {Black}
 
 SetsCtx(c) == c.path = "single" \/ SetOnAllPaths
-Begin == /\ phase = "pick" /\ d = 12 /\ uses' = AllUses(cfg)
+Begin == /\ phase = "pick" /\ d = 13 /\ uses' = AllUses(cfg)
          /\ phase' = (IF SetsCtx(cfg) THEN "set" ELSE "render") /\ UNCHANGED <<cfg, d, ctx, k, out>>
 SetCtx == phase = "set" /\ ctx' = <<TRUE, Palette(cfg)>> /\ phase' = "render" /\ UNCHANGED <<cfg, d, uses, k, out>>
 Lookup == /\ phase = "render" /\ k <= Len(uses)
